@@ -17,7 +17,10 @@ B3  the recorded crossings (B2 orderings, and every Fiber / Roadm / Edfa / Multi
     LatencyLinear, PmdQuadrature, PdlQuadrature against each element's own contribution measured by crossing it ALONE
     from a zero state, ContribFromConfig (a span's latency / PMD^2 follow from ITS OWN length: length / (c / n),
     pmd_coef^2 x length - also for the spans the auto-design cuts out of a long link: CORONET and a 390 km test link),
-    NoMemory, and OrderIndependent over all orderings of an assembly.
+    NoMemory, RoadmContribFromConfig (a ROADM's PMD / PDL: the crossed path's impairment profile where it defines the
+    quantity, else the ROADM-level value, each on its own; the B2 ROADM has profiles defining only one of the two), and
+    OrderIndependent over all orderings of an assembly.  Quick-tier LowPower: with Raman on (perturbative) at -60 dBm
+    per channel every spec fibre, as Fiber and as pump-less RamanFiber, loses exactly the emitted budget.
     Thorough tier only: Raman-on relational histories (LowPower, LumpedOnce, PumpsOnlyAddGain, MethodsAgree) on the
     shipped Raman fibre configurations, judged by the same trace specification.
 """
@@ -75,8 +78,19 @@ def build_elements(conf):
     from gnpy.tools.json_io import load_eqpt_topo_from_json, network_from_json
     from gnpy.tools.worker_utils import designed_network
     eq_json = L.base_eqpt()
+    # ROADM-level PMD / PDL, and impairment profiles that define only ONE of the two (express: PMD only, add: PDL only)
+    # or both (drop): what a profile does not define falls back to the ROADM-level value, each quantity on its own
+    rng_ = {'lower-frequency': 191.3e12, 'upper-frequency': 196.1e12}
     eq_json['Roadm'].append({'type_variety': 'verif', 'target_pch_out_db': -20, 'add_drop_osnr': 38, 'pmd': 3e-12,
-                             'pdl': 0.5, 'restrictions': {'preamp_variety_list': [], 'booster_variety_list': []}})
+                             'pdl': 0.5, 'restrictions': {'preamp_variety_list': [], 'booster_variety_list': []},
+                             'roadm-path-impairments': [
+                                 {'roadm-path-impairments-id': 0,
+                                  'roadm-express-path': [{'frequency-range': rng_, 'roadm-pmd': 2e-12, 'roadm-maxloss': 0}]},
+                                 {'roadm-path-impairments-id': 1,
+                                  'roadm-add-path': [{'frequency-range': rng_, 'roadm-pdl': 0.8, 'roadm-maxloss': 0}]},
+                                 {'roadm-path-impairments-id': 2,
+                                  'roadm-drop-path': [{'frequency-range': rng_, 'roadm-pmd': 1e-12, 'roadm-pdl': 0.2,
+                                                       'roadm-maxloss': 0}]}]})
     eq_json['Edfa'].append({'type_variety': 'verif_amp', 'type_def': 'variable_gain', 'gain_flatmax': 26, 'gain_min': 15,
                             'p_max': 23, 'nf_min': 6, 'nf_max': 10, 'pmd': 1e-12, 'pdl': 0.3, 'out_voa_auto': False,
                             'allowed_for_design': False})
@@ -84,7 +98,9 @@ def build_elements(conf):
     eq, net = load_eqpt_topo_from_json(copy.deepcopy(eq_json), topo)
     net, _, _ = designed_network(eq, net)
     nodes = {n.uid: n for n in net.nodes()}
-    els = {'R': (nodes['roadm B'], {'degree': 'booster BC', 'from_degree': 'preamp AB'}), 'A': (nodes['preamp AB'], {})}
+    els = {'R': (nodes['roadm B'], {'degree': 'booster BC', 'from_degree': 'preamp AB'}), 'A': (nodes['preamp AB'], {}),
+           'Radd': (nodes['roadm B'], {'degree': 'booster BC', 'from_degree': 'trx B'}),
+           'Rdrop': (nodes['roadm B'], {'degree': 'trx B', 'from_degree': 'preamp AB'})}
     fnet = network_from_json({'elements': [fiber_json(f, sp) for f, sp in conf['span'].items()], 'connections': []}, eq)
     for f in fnet.nodes():
         f.ref_pch_in_dbm = 0.0                   # only used for the printed "reference pch out"
@@ -147,6 +163,18 @@ def replay_orders(conf, orders, chk):
         if len(chk.samples) < 1 and len(order) == 6:
             chk.sample(dict(kind='B2 ordering executed on real elements', order=order, spec_budget_udb=js['budget'],
                             code_total_loss_udb=[udb(x) for x in tot]))
+    # the other two internal paths of the ROADM (add: profile defines PDL only, drop: both), after one fibre
+    evs = []
+    try:
+        for e in ('F1', 'Radd', 'Rdrop'):
+            el, args = els[e]
+            with Recording() as rec:
+                si = el(si if e != 'F1' else launch(conf), **args)
+            evs.append(L.fiber_event(rec.events[-1], False, contrib=contrib) if e == 'F1'
+                       else L.acc_event(rec.events[-1], contrib=contrib))
+        groups['roadm add and drop paths'] = evs
+    except Exception as ex:                                              # noqa
+        chk.violation(f'B2|roadm add/drop crossing|exception|{type(ex).__name__}', dict(exception=traceback.format_exc()[-1200:]))
     chk.cov['b2_orderings'] = len(orders)
     chk.cov['b2_assemblies'] = len(groups)
     chk.cov['b2_loss_worst_deviation_udb'] = worst
@@ -207,6 +235,59 @@ def fibre_memory_traces(conf, chk):
     finally:
         SimParams.set_params({})
     chk.cov['memory_histories'] = len(traces)
+    return traces
+
+
+def low_power_traces(conf, orders, chk):
+    """LowPower in the quick tier: with Raman computation ON (perturbative) and -60 dBm per channel every fibre of the
+    emitted configuration - as a plain Fiber and as a RamanFiber without pumps - attenuates by the budget the
+    specification emitted (att_in, connectors, every lumped loss once)"""
+    from gnpy.core.info import create_arbitrary_spectral_information
+    from gnpy.core.parameters import SimParams
+    from gnpy.tools.json_io import load_equipments_and_configs, network_from_json
+    eq = load_equipments_and_configs(EX / 'eqpt_config.json', [], [])
+    budget = {}
+    for js in orders:
+        for e, b in zip(js['order'], js['budget']):
+            if b:
+                budget.setdefault(e, b)
+    els = []
+    for fid, sp in conf['span'].items():
+        els.append(fiber_json(fid, sp))
+        r = fiber_json(fid, sp)
+        r.update({'uid': fid + ' as RamanFiber', 'type': 'RamanFiber', 'type_variety': 'SSMF',
+                  'operational': {'temperature': 283, 'raman_pumps': []}})
+        els.append(r)
+    f = np.array(conf['chanF'], dtype=float) * 1e9
+    traces = []
+    worst = 0
+    try:
+        SimParams.set_params({'raman_params': {'flag': True, 'method': 'perturbative', 'order': 2,
+                                               'solver_spatial_resolution': 500, 'result_spatial_resolution': 10e3},
+                              'nli_params': {'method': 'gn_model_analytic'}})
+        for el in network_from_json({'elements': els, 'connections': []}, eq).nodes():
+            el.ref_pch_in_dbm = 0.0
+            fid = el.uid.split(' ')[0]
+            chk.case(f'lowpower|{el.uid}', nontrivial=True)
+            si = create_arbitrary_spectral_information(frequency=f, pch=1e-9, baud_rate=32e9, slot_width=50e9, tx_osnr=40,
+                                                       tx_power=1e-9, roll_off=0.15)
+            try:
+                with Recording() as rec:
+                    el(si)
+            except Exception as ex:                                      # noqa
+                chk.violation(f'lowpower|{type(el).__name__}|{features(conf["span"][fid])}|exception|{type(ex).__name__}',
+                              dict(fibre=el.uid, exception=traceback.format_exc()[-1200:]))
+                continue
+            ev = rec.events[-1]
+            loss = L.dbm(ev['pre']['pch']) - L.dbm(ev['post']['pch'])
+            worst = max(worst, max(abs(udb(x) - b) for x, b in zip(loss, budget[fid])))
+            traces.append({'name': f'lowpower {el.uid}',
+                           'ev': [{'k': 'LowPower', 'what': f'{type(el).__name__}|{features(conf["span"][fid])}',
+                                   'ch': [{'a': udb(x), 'b': b} for x, b in zip(loss, budget[fid])]}]})
+    finally:
+        SimParams.set_params({})
+    chk.cov['lowpower_quick_worst_deviation_udb'] = worst
+    chk.cov['lowpower_quick_tolerance_udb'] = 2000
     return traces
 
 
@@ -413,7 +494,7 @@ def run(chk):
     b2_traces = replay_orders(conf[0], orders, chk)
     lap('b2_replay')
     mem = fibre_memory_traces(conf[0], chk)
-    b2_traces = b2_traces + mem
+    b2_traces = b2_traces + mem + low_power_traces(conf[0], orders, chk)
     report(chk, b2_traces, L.judge(chk, b2_traces, 'c05-trace-b2'), 'B2trace')
     lap('b2_judge')
     # ---- B3
@@ -520,7 +601,20 @@ def _mut_alpha_memoised():
     E.Fiber.alpha = alpha
 
 
+def _mut_roadm_fallback_merged():
+    """a profile lacking roadm-pdl makes the ROADM-level pmd override the profile's roadm-pmd as well"""
+    import gnpy.core.elements as E
+    orig = E.Roadm.get_impairment
+
+    def get_impairment(self, impairment, frequency_array, from_degree, degree):
+        if impairment == 'roadm-pmd' and orig(self, 'roadm-pdl', frequency_array, from_degree, degree) is None:
+            return None
+        return orig(self, impairment, frequency_array, from_degree, degree)
+    E.Roadm.get_impairment = get_impairment
+
+
 MUTANTS = {'connector_dropped': _mut_connector_dropped, 'cd_assigned': _mut_cd_assigned, 'pmd_linear': _mut_pmd_linear,
            'lumped_twice': _mut_lumped_twice, 'latency_position': _mut_latency_position,
            'roadm_pdl_overwrite': _mut_roadm_pdl_overwrite, 'loss_table_misaligned': _mut_loss_table_misaligned,
-           'latency_without_group_index': _mut_latency_without_group_index, 'alpha_memoised': _mut_alpha_memoised}
+           'latency_without_group_index': _mut_latency_without_group_index, 'alpha_memoised': _mut_alpha_memoised,
+           'roadm_fallback_merged': _mut_roadm_fallback_merged}
